@@ -28,7 +28,7 @@ PROOFS = [
     LP('AddAfter', mutants=[('tail_not_updated', r'm_tail = obj;\n         \}\n         ref->m_next = obj;', ';\n         }\n         ref->m_next = obj;', 'postcondition'),
                             ('backlink_missing', r'ref->m_next->m_prev = obj;', ';', 'postcondition')]),
     LP('AddBefore', mutants=[('no_remove_first', r'Remove\(obj\);\n         obj->m_next = ref;', 'obj->m_next = ref;', 'postcondition')]),
-    LP('AddTail', mutants=[('next_not_cleared', r'obj->m_next = Chunk::NullChunkPtr;\n      obj->m_prev = m_tail;', 'obj->m_prev = m_tail;', 'postcondition')]),
+    LP('AddTail', mutants=[('old_tail_not_linked', r'm_tail->m_next = obj;', ';', 'postcondition')]),
     LP('AddHead', mutants=[('head_not_set', r'm_head->m_prev = obj;\n      \}\n      m_head = obj;', 'm_head->m_prev = obj;\n      }', 'postcondition')]),
     LP('Swap_apart_or_null', fn='Swap', defines=['SWAP_CASE=0'], timeout=1200),
     LP('Swap_a_before_b', fn='Swap', defines=['SWAP_CASE=1'], timeout=1200, mutants=[('adjacent_case_wrong', r'Remove\(obj2\);\n            AddBefore\(obj2, obj1\);', 'Remove(obj2);\n            AddAfter(obj2, obj1);', 'postcondition')]),
